@@ -231,9 +231,13 @@ Proof.
   cbv zeta. split; [|split].
   - eapply JP_obj with (ms1 := [(b "type", JStr (b "record")); (b "name", JStr (b "r"));
                                 (b "fields", JArr [JObj [(b "type", ex_fixed); (b "name", JStr (b "f"))]])]).
-    + repeat constructor; cbn [fst snd]; try reflexivity.
+    + constructor; [split; [reflexivity|apply json_perm_refl]|].
+      constructor; [split; [reflexivity|apply json_perm_refl]|].
+      constructor; [|constructor]. split; [reflexivity|]. cbn [snd].
+      apply JP_arr. constructor; [|constructor].
       eapply JP_obj with (ms1 := [(b "name", JStr (b "f")); (b "type", ex_fixed)]).
-      * repeat constructor; cbn [fst snd]; try reflexivity. apply json_perm_refl.
+      * constructor; [split; [reflexivity|apply json_perm_refl]|].
+        constructor; [split; [reflexivity|apply json_perm_refl]|]. constructor.
       * apply perm_swap.
     + eapply perm_trans; [apply perm_skip; apply perm_swap|]. apply perm_swap.
   - vm_compute. discriminate.
